@@ -1811,3 +1811,23 @@ Qed.
 Lemma prescribed_1212 hd m k miss t : m_id m = ID_1212 -> parse1211 (m_body m) = Ok t ->
   prescribed hd m k miss = encode hd ID_9212 k (reply1212 t miss).
 Proof. intros Hid Hp. unfold prescribed. rewrite Hid. cbn [ID_1212 N.eqb Pos.eqb]. rewrite Hp. reflexivity. Qed.
+
+(* the bytes the model WRITES in answer to the i-th item when it is a 0x1212 of an upload: Header.Encode of the header
+   the handler keeps (the first message's), id 0x9212, the serial the handler had reached, and ReplyBody of the exact list *)
+Theorem written_1212 d split its sts i f m t s' : split_ok split -> Forall (wf_item d) its ->
+  Forall (item_of d split) its -> upload_ok d [] its = true -> irun d init_st its = Some sts ->
+  nth_error its i = Some (I_frame f) -> decode f = Ok m -> m_id m = ID_1212 -> parse1211 (m_body m) = Ok t ->
+  nth_error sts i = Some s' ->
+  exists pk, afind name_eqb (f_name t) (s_record s') = Some pk /\
+  let prev := before init_st sts i in
+  wr s' = encode (match h_head prev with Some x => x | None => m end) ID_9212 (h_seq prev)
+                 (reply1212 t (miss_segments (p_size pk) (sum_len (p_recs pk)) (p_recs pk))).
+Proof.
+  intros Hsp Hall Hof Hu H Hi Hd Hid Hp Hs.
+  destruct (reply_1212_exact_upload d split its sts i f m t s' Hsp Hall Hof Hu H Hi Hd Hid Hp Hs) as (pk & Hf & Hm & _).
+  exists pk. split. exact Hf. cbv zeta.
+  pose proof (irun_nth d its init_st sts i (I_frame f) s' H Hi Hs) as Hst. cbn [wire] in Hst.
+  assert (vframe f) as Hv. { rewrite Forall_forall in Hall. apply (Hall (I_frame f)). eapply nth_error_In, Hi. }
+  destruct (frame_reply d (before init_st sts i) f s' Hv Hst) as (m' & Hd' & Hwr & _).
+  rewrite Hd in Hd'. injection Hd' as <-. rewrite Hwr, (prescribed_1212 _ m _ _ t Hid Hp). cbv zeta in Hm. rewrite Hm. reflexivity.
+Qed.
